@@ -728,7 +728,9 @@ func (iv *Inv) sitesOf(fn *ssa.Function) []invSite {
 			case *ssa.Panic:
 				out = append(out, invSite{fn, in, "panic", "panic(" + stableOperand(x.X) + ")"})
 			case *ssa.TypeAssert:
-				if !x.CommaOk {
+				// (an assertion of an interface value to its own interface type is go/ssa's nil check of a method value
+				// `x.M` - it fails exactly when calling x.M() would; not a conversion that can fail on the type)
+				if !x.CommaOk && !types.Identical(x.AssertedType, x.X.Type()) {
 					out = append(out, invSite{fn, in, "typeassert", "." + "(" + typeString(x.AssertedType) + ")"})
 				}
 			case *ssa.BinOp:
